@@ -422,16 +422,83 @@ def _note_dispatch(entry, optimize, n):
         _DISPATCH_FIRST.setdefault((entry, type(optimize).__name__), fl)
 
 
+_IFACE_HISTORY = []     # every public-interface call this process has made, as re-executable session calls
+
+
+def _raw_call(entry, inputs, output, sd, optimize, kw):
+    if isinstance(optimize, (tuple, list)):
+        opt = {"container": type(optimize).__name__,
+               "seq": [list(x) if isinstance(x, (tuple, list)) else x for x in optimize]}
+    else:
+        opt = {"preset": optimize}
+    return {"entry": entry, "raw": {"inputs": [list(t) for t in inputs], "output": list(output),
+                                    "size_dict": dict(sd) if sd is not None else None, "optimize": opt,
+                                    "kw": {k: ([list(x) for x in v] if k == "shapes" else v)
+                                           for k, v in kw.items()}}}
+
+
 def act(inputs, output, sd, optimize, **kw):
     """array_contract_tree, remembering which flavour of explicit path each dispatch table saw first in
-    this process (find_tree / find_path memoise their handler per class of `optimize`)"""
+    this process (find_tree / find_path memoise their handler per class of `optimize`) and the call"""
     _note_dispatch("tree", optimize, len(inputs))
+    _IFACE_HISTORY.append(_raw_call("tree", inputs, output, sd, optimize, kw))
     return ctg.array_contract_tree(inputs, output, sd, optimize=optimize, **kw)
 
 
 def acp(inputs, output, sd, optimize, **kw):
     _note_dispatch("path", optimize, len(inputs))
+    _IFACE_HISTORY.append(_raw_call("path", inputs, output, sd, optimize, kw))
     return ctg.array_contract_path(inputs, output, sd, optimize=optimize, **kw)
+
+
+def answer_ok(kind, n, val, partial=False):
+    """the implementation-side oracle on one answer (what `judge` demands)"""
+    try:
+        if kind == "ssa":
+            return bool(valid_ssa(n, val["path"]))
+        if kind == "path":
+            return bool(valid_linear(n, val["path"], partial=partial))
+        return bool(tree_ok(n, val["children"]) and val["N"] == n and valid_linear(n, val.get("lin"))
+                    and valid_ssa(n, val.get("ssa")) and valid_linear(n, val.get("lin_ord", val.get("lin")))
+                    and valid_ssa(n, val.get("ssa_ord", val.get("ssa"))))
+    except (KeyError, TypeError):
+        return False
+
+
+def pristine_case(ctx, case, h0, partial_ok=False):
+    """An interface call made in this (long-lived) process failed. If the same call fails when it is the
+    first thing a pristine process image does, the recorded case reproduces as it is. Otherwise the
+    failure needs state left by earlier interface calls: find a suffix of this process's history after
+    which it fails from a pristine image and turn the case into that session, so that the replay is
+    self-contained."""
+    calls_made = _IFACE_HISTORY[h0:]
+    if not calls_made:
+        return case
+    last = dict(calls_made[-1], partial_ok=partial_ok)
+    zyg = zygote(ctx)
+
+    def fails(calls):
+        st, recs, _ = zyg.run(calls, limit=60, total=900)
+        return len(recs) == len(calls) and not record_ok(calls[-1], recs[-1])
+    if fails([last]):
+        ctx.count("in_process_failure:reproduces_as_single_call")
+        return case
+    hist = _IFACE_HISTORY[:h0] + calls_made[:-1]
+    k = 1
+    while True:
+        k = min(k, len(hist))
+        if fails(hist[len(hist) - k:] + [last]):
+            ctx.count("in_process_failure:needs_history")
+            return {"site": "session", "label": case.get("label"), "kind": last["entry"], "net": case.get("net"),
+                    "params": {}, "session": "history-of-this-process", "calls": hist[len(hist) - k:] + [last],
+                    "original": {k_: v for k_, v in case.items() if k_ != "net"}}
+        if k >= len(hist) or ctx.time_left() < 60:
+            break
+        k *= 4
+    ctx.count("in_process_failure:not_reproduced_from_pristine_image")
+    return case
+
+
 
 
 def prime_dispatch(first):
@@ -567,6 +634,7 @@ def run_finder(ctx, drv, net, netname, site, kind, label, thunk, params, case_ex
         ctx.count("skipped_after_hang:%s/%s" % (site, label))
         return None
     first_before = [[e, c, f] for (e, c), f in _DISPATCH_FIRST.items()]
+    h0 = len(_IFACE_HISTORY)
 
     def produce():
         val = thunk()
@@ -593,6 +661,8 @@ def run_finder(ctx, drv, net, netname, site, kind, label, thunk, params, case_ex
         case.update(case_extra)
     if first_before and (site.startswith(("array_contract", "explicit-")) or site == "sequence"):
         case["dispatch_first"] = first_before
+    if len(_IFACE_HISTORY) > h0 and not (status == "ok" and answer_ok(kind, n, val)):
+        case = pristine_case(ctx, case, h0)
     return judge(ctx, drv, net, netname, site, kind, label, status, val, case)
 
 
@@ -721,18 +791,23 @@ def check_explicit(ctx, drv, net, netname, rng):
         run_finder(ctx, drv, net, netname, "explicit-edge-path", "tree", "tree",
                    lambda: act(inputs, output, sd, ep), {"edge_path": list(ep)})
         first_before = [[e, c, f] for (e, c), f in _DISPATCH_FIRST.items()]
+        h0 = len(_IFACE_HISTORY)
         st, path = guarded(lambda: acp(inputs, output, sd, ep, cache=False))
         if st == "ok":
             # an edge path may legitimately stop early: it must replay, and from_path completes it
-            path = [[int(x) for x in s] for s in path]
+            path = [c05_sessions._jsonable_step(s) for s in path]
+            if not valid_linear(n, path, partial=True):
+                case = {"net": net.json(), "site": "explicit-edge-path", "label": "path",
+                        "params": {"edge_path": list(ep)}, "kind": "path-partial", "dispatch_first": first_before}
+                case = pristine_case(ctx, case, h0, partial_ok=True)
+                ctx.violation({"site": "explicit-edge-path", "label": "path", "ntensors": net_class(net),
+                               "error": "invalid-path"}, {"case": case, "observed": path},
+                              "edge path converts to a linear path naming a position that does not exist")
+                return
             r = drv.call("c05.check_linear", n=n, path=path)
             if not r.get("replays"):
-                ctx.violation({"site": "explicit-edge-path", "label": "path", "ntensors": net_class(net),
-                               "error": "invalid-path"},
-                              {"case": {"net": net.json(), "site": "explicit-edge-path", "label": "path",
-                                        "params": {"edge_path": list(ep)}, "kind": "path-partial",
-                                        "dispatch_first": first_before}, "observed": path},
-                              "edge path converts to a linear path naming a position that does not exist")
+                ctx.corr_broken("Lean checkLinearPartial rejects a path the oracle accepts",
+                                {"net": net.json(), "path": path})
         return
     if flavour == "malformed":
         path = rand_linear_path(rng, n)
@@ -1320,6 +1395,7 @@ def gen_session(rng, presets, kind, focus=None):
     fast = [p for p in avail if not p["slow"] and not p["compressed"]
             and not p["name"].startswith(("optimal", "dp", "dynamic"))]
     same_order = rng.random() < 0.4
+    same_m = rng.randint(3, 6)
     for _ in range(rng.randint(3, 6)):
         what = rng.choice(["linear", "edge", "small-tree", "preset"] if kind == "mixed" else
                           ["linear", "linear", "edge", "edge", "small-tree"])
@@ -1335,7 +1411,7 @@ def gen_session(rng, presets, kind, focus=None):
             net = ladder_net(rng, 2, 8)
             if what == "edge" and (not net.indices() or same_order):
                 # rings and chains over the same index names 0..m-1: different networks, equal edge paths
-                m = rng.randint(3, 6)
+                m = same_m
                 net = ring_net(m, rng.choice([2, 3])) if rng.random() < 0.5 else chain_net(m - 1, rng.choice([2, 3]))
             calls.append(explicit_call(rng, net, what, rng.choice(["tuple", "tuple", "list"]),
                                        rng.choice(["path", "tree"]), same_order=same_order))
@@ -1346,14 +1422,8 @@ def record_ok(call, rec):
     """implementation-side verdict on one record of a session (python oracles only)"""
     if rec.get("status") != "ok":
         return False
-    net = gen.Net.from_json(call["net"])
-    n = len(net.inputs)
-    v = rec["val"]
-    if call["entry"] == "path":
-        return valid_linear(n, v["path"], partial=bool(call.get("partial_ok")))
-    return bool(tree_ok(n, v["children"]) and v["N"] == n and valid_linear(n, v.get("lin"))
-                and valid_ssa(n, v.get("ssa")) and valid_linear(n, v.get("lin_ord", v.get("lin")))
-                and valid_ssa(n, v.get("ssa_ord", v.get("ssa"))))
+    n = len(call["raw"]["inputs"]) if "raw" in call else len(call["net"]["inputs"])
+    return answer_ok(call["entry"], n, rec["val"], partial=bool(call.get("partial_ok")))
 
 
 def run_session(ctx, drv, label, calls, skind):
@@ -1425,7 +1495,7 @@ def check_sessions(ctx, drv, rng, budget_s, rounds):
     for r in range(rounds):
         for p in fast:
             plan.append(("preset", p))
-        plan += [("explicit", None), ("explicit", None), ("mixed", None), ("shared", None)]
+        plan += [("explicit", None)] * 6 + [("mixed", None), ("mixed", None), ("shared", None)]
         if r == 0:
             for p in slow:
                 plan.append(("preset", p))
@@ -2024,7 +2094,10 @@ def replay_session(case):
     the verdict is on the answer to the last call"""
     calls = case["calls"]
     limit = max(c.get("limit", 60) for c in calls)
-    for _ in range(4):
+    names = " ".join(str(c.get("opt", {}).get("name", "")) + str(c.get("raw", {}).get("optimize", {}).get("preset", ""))
+                     for c in calls)
+    unseeded = any(w in names for w in ("random", "hyper", "auto"))
+    for _ in range(12 if unseeded else 2):
         st, recs = forked(lambda: c05_sessions.run_inprocess(calls, limit), limit=limit * len(calls) + 30)
         if st != "ok":
             print("# replay:", st, recs)
